@@ -77,7 +77,7 @@ Definition spec_text_ok (ro : list str) (e : env) (text : str) : bool :=
   | None => false
   | Some log =>
       forallb (fun k => entry_eqb (final_lookup k log) (expected_lookup ro e k))
-              (map fst e ++ map fst log)
+              (map fst e ++ map (fun a => fst (fst a)) log)
   end.
 Definition spec_gen_ok (i : gen_input) (r : val) : bool :=
   let '(_, _, ro, e) := i in
@@ -117,19 +117,4 @@ Definition spec_frame_val (i : str * str) (r : val) : bool :=
   match r with
   | VL [VS wire; VS filewire; VS filedata] => spec_frame_ok (fst i) wire filewire filedata (snd i)
   | _ => false
-  end.
-(* model side of the same stream: (text, path) -> the three byte strings *)
-Definition run_frame2 (i : str * str) : val :=
-  VL [VS (frame (fst i)); VS (frame_file (snd i)); VS (encode (fst i))].
-
-(* model side of stream "e2e": generate, evaluate with the bash model, dump *)
-Definition run_e2e (i : gen_input) : val :=
-  let '(an, al, ro, e) := i in
-  match generate_env_str (mkU an al) ro e with
-  | inl x => enc_gerr x
-  | inr t =>
-      match bash_eval t with
-      | Some log => VL (enc_state (map fst e) log)
-      | None => VErr [117;110;115;117;112;112;111;114;116;101;100]
-      end
   end.
